@@ -150,6 +150,8 @@ func C09(c *Ctx) {
 	r.Rule("R09.6", "no stale chain meta: a value read from the old chain meta (height, hash, interchain count) that is stored into the chain meta a function persists / installs (persistChainMeta, UpdateChainMeta) is read after the last update of that field on the path - a copy taken before the removal loop of a rollback misses the loop's subtractions.")
 	r.Rule("R09.5", "interchain count: persisting and rolling back adjust InterchainTxCount by the same function of InterchainMeta.Counter: the sum of len(Slice), every addition into the running count being executed for every element (an increment behind a test of the element counts a subset, and the two sides drift apart).")
 	r.Rule("R09.8", "a removed block takes its own index entries with it: every key that removeChainDataOnBlock deletes is built from the height it was asked to remove or from the block / interchain meta it loaded under that height - never from the chain meta (the head), whose hash belongs to another block as soon as more than one block is rolled back.")
+	r.Rule("R09.10", "an index value is read the way it was written: where the chain ledger stores the text form of a hash under a key prefix ([]byte(h.String())), every reader of that prefix decodes the text (types.NewHashByStr(string(data))) and none takes the bytes as the raw hash (types.NewHash keeps the last 32 bytes of whatever it gets); where it stores the raw bytes, no reader parses text. A reader of the other kind answers every lookup with a wrong, well-formed hash: the BLOCKHASH opcode and GetBlockHash return the ASCII of the last 32 hex digits.")
+	c.c09ValueCodec()
 	r.Rule("R09.9", "the interchain count counts each request once (shared with C02 R02.7): "+perBlockResetText)
 	c.perBlockReset("R09.9")
 	r.NotDecided = append(r.NotDecided, "blockfile internals (pinned dependency); value-level equality of stored and recomputed roots")
@@ -705,4 +707,93 @@ func (c *Ctx) staleMetaReads() {
 		}
 	}
 	r.Floor("R09.6", "old-meta reads feeding a persisted chain meta", n, 1)
+}
+
+// c09ValueCodec: R09.10.
+func (c *Ctx) c09ValueCodec() {
+	r := c.R
+	isHashText := func(v ssa.Value) bool {
+		return core.Mentions(v, func(w ssa.Value) bool {
+			cc, ok := w.(*ssa.Call)
+			return ok && strings.HasSuffix(core.CalleeName(cc), "types.Hash).String")
+		})
+	}
+	isHashRaw := func(v ssa.Value) bool {
+		return core.Mentions(v, func(w ssa.Value) bool {
+			cc, ok := w.(*ssa.Call)
+			return ok && strings.HasSuffix(core.CalleeName(cc), "types.Hash).Bytes")
+		})
+	}
+	written := map[string]string{} // prefix -> "text" | "raw"
+	for _, fn := range c.P.ModuleFuncs(true) {
+		if core.PkgOf(fn) != ledgerPkg {
+			continue
+		}
+		for _, call := range core.Calls(fn) {
+			o := core.CalleeObj(call)
+			if o == nil || o.Name() != "Put" || !strings.Contains(core.CalleeName(call), "storage.") || len(call.Common().Args) < 2 {
+				continue
+			}
+			args := call.Common().Args
+			pfx, ok := keyPrefixOf(args[len(args)-2])
+			if !ok {
+				continue
+			}
+			val := args[len(args)-1]
+			switch {
+			case isHashText(val):
+				written[pfx] = "text"
+			case isHashRaw(val):
+				written[pfx] = "raw"
+			}
+		}
+	}
+	n := 0
+	for _, fn := range c.P.ModuleFuncs(true) {
+		if core.PkgOf(fn) != ledgerPkg {
+			continue
+		}
+		for _, call := range core.Calls(fn) {
+			o := core.CalleeObj(call)
+			if o == nil || o.Name() != "Get" || !strings.Contains(core.CalleeName(call), "storage.") || len(call.Common().Args) < 1 {
+				continue
+			}
+			args := call.Common().Args
+			pfx, ok := keyPrefixOf(args[len(args)-1])
+			kind := written[pfx]
+			cv, isCall := call.(*ssa.Call)
+			if !ok || kind == "" || !isCall {
+				continue
+			}
+			n++
+			// how the value read is decoded: NewHash(data) / NewHashByStr(string(data))
+			raw, text := false, false
+			for _, other := range core.Calls(fn) {
+				cn := core.CalleeName(other)
+				uses := false
+				for _, a := range other.Common().Args {
+					if core.Mentions(a, func(w ssa.Value) bool { return w == ssa.Value(cv) }) {
+						uses = true
+					}
+				}
+				if !uses {
+					continue
+				}
+				switch {
+				case strings.HasSuffix(cn, "types.NewHashByStr"):
+					text = true
+				case strings.HasSuffix(cn, "types.NewHash"):
+					raw = true
+				}
+			}
+			key := shortFn(fn) + ": value under " + pfx + " decoded as it is stored (" + kind + ")"
+			switch {
+			case kind == "text" && raw, kind == "raw" && text:
+				r.Bad("R09.10", key, c.P.Pos(call.Pos()), "the value stored under "+pfx+" is the "+kind+" form of a hash, but this reader decodes it as the other form: every answer is a well-formed but wrong hash (for the text form: the ASCII of its last 32 hex digits), so the height -> hash index disagrees with the stored blocks")
+			default:
+				r.OK("R09.10", key, c.P.Pos(call.Pos()), "reader and writer use the same form")
+			}
+		}
+	}
+	r.Floor("R09.10", "readers of index entries that hold a hash", n, 1)
 }
